@@ -60,7 +60,8 @@ def cmd_confirm(name):
   try:
     r = sh(['git', '-C', REPO, 'worktree', 'add', '-q', '--detach', wt, 'HEAD'])
     assert r.returncode == 0, r.stderr
-    env = dict(os.environ, PYTHONPATH=wt)
+    env = dict(os.environ, PYTHONPATH=wt, OMP_NUM_THREADS='1',
+               OPENBLAS_NUM_THREADS='1')
     shutil.copy(os.path.join(d, 'demo.py'), os.path.join(wt, 'demo.py'))
     # demo.py files refer to their own worktree path: make them relocatable
     src = open(os.path.join(wt, 'demo.py')).read()
@@ -73,7 +74,7 @@ def cmd_confirm(name):
     a = sh(['git', '-C', wt, 'apply', os.path.join(d, 'patch.diff')])
     assert a.returncode == 0, a.stderr
     r1 = sh([PY, 'demo.py'], cwd=wt, env=env, timeout=1800)
-    t = sh('cd %s && PYTHONPATH=%s %s -m pytest -q -p no:cacheprovider -n 12 '
+    t = sh('cd %s && OMP_NUM_THREADS=1 OPENBLAS_NUM_THREADS=1 PYTHONPATH=%s %s -m pytest -q -p no:cacheprovider -n 12 '
            '--timeout=900 --junitxml=%s/j.xml test > %s/log 2>&1; tail -1 %s/log'
            % (wt, wt, PY, tmp, tmp, tmp), timeout=7200)
     import xml.etree.ElementTree as ET
@@ -90,7 +91,7 @@ def cmd_confirm(name):
       mod, klass = cls_.rsplit('.', 1) if cls_.count('.') > 1 else (cls_, None)
       node = mod.replace('.', '/') + '.py::' + \
           ((klass + '::') if klass else '') + name_
-      r_ = sh('cd %s && PYTHONPATH=%s %s -m pytest -q -p no:cacheprovider '
+      r_ = sh('cd %s && OMP_NUM_THREADS=1 PYTHONPATH=%s %s -m pytest -q -p no:cacheprovider '
               '--timeout=1800 "%s" 2>&1 | tail -1' % (wt, wt, PY, node),
               timeout=3600)
       if ' passed' not in r_.stdout or 'failed' in r_.stdout:
